@@ -493,6 +493,11 @@ func c10Gen(seed uint64, tier string) *Plan {
 		b.add(Action{At: rng.Dur(time.Minute, horizon-time.Minute), Kind: "restart", Inst: rng.Intn(n), D: rng.Dur(0, 5*time.Second)})
 	}
 	p.SortActions()
+	// one-shot suspensions of the maintenance goroutine (GC, snapshot) right before a
+	// critical section, so that the driver's Log/Merge/Query calls land inside them
+	if ra := rng.Fork("autoholds"); ra.Bool(0.4) {
+		p.Holds = append(p.Holds, AutoHolds(ra, AutoSitesNflog[:2], ra.Range(1, 2), 24, 50*time.Millisecond, 90*time.Second)...)
+	}
 	return p
 }
 
